@@ -25,6 +25,7 @@ type dutyCtxKey struct{}
 type submitBN struct {
 	*fakebn.BN
 	byIndex func(eth2p0.ValidatorIndex) (core.PubKey, bool)
+	whose   func(core.SignedData) (eth2p0.ValidatorIndex, bool) // the cluster validator under whose group key the object verifies
 	rec     func(d core.Duty, pk core.PubKey, data core.SignedData)
 	// an object for a validator index the cluster does not have, or one that cannot be read back
 	bad func(string)
@@ -45,13 +46,24 @@ func (b submitBN) file(ctx context.Context, idx eth2p0.ValidatorIndex, data core
 
 func (b submitBN) SubmitAttestations(ctx context.Context, opts *eth2api.SubmitAttestationsOpts) error {
 	for _, att := range opts.Attestations {
-		if att == nil || att.ValidatorIndex == nil {
-			b.bad("attestation without validator index submitted to the beacon node")
+		if att == nil {
+			b.bad("nil attestation submitted to the beacon node")
 			continue
 		}
 		v, err := core.NewVersionedAttestation(att)
 		if err != nil {
 			b.bad("submitted attestation cannot be read: " + err.Error())
+			continue
+		}
+		if att.ValidatorIndex == nil {
+			// formats before Electra (and partials of old peers) carry no index: the object belongs to the
+			// cluster validator whose key it verifies under, if any
+			idx, ok := b.whose(v)
+			if !ok {
+				b.bad("attestation without validator index that verifies under no cluster validator's key")
+				continue
+			}
+			b.file(ctx, idx, v, "attestation")
 			continue
 		}
 		b.file(ctx, *att.ValidatorIndex, v, "attestation")
